@@ -7,9 +7,10 @@ From Zog Require Import Model.Val Model.Engine Model.Preds.
 Import ListNotations.
 Open Scope string_scope.
 
-(** options passed to one test: Message, IssueCode, IssuePath (Params are per built-in) *)
-Record topts := { o_msg : option string; o_code : option string; o_path : option string }.
-Definition no_opts := {| o_msg := None; o_code := None; o_path := None |}.
+(** options passed to one test: Message / MessageFunc, IssueCode, IssuePath, Params (which replaces the
+    parameters a built-in test sets itself) *)
+Record topts := { o_msg : option string; o_code : option string; o_path : option string; o_params : option (list (string * string)) }.
+Definition no_opts := {| o_msg := None; o_code := None; o_path := None; o_params := None |}.
 
 Inductive bcall :=
 | CNot
@@ -28,7 +29,7 @@ Definition apply_opts (o : topts) (t : test) : test :=
      t_code := match o_code o with Some c => c | None => t_code t end;
      t_ipath := match o_path o with Some p => Some p | None => t_ipath t end;
      t_msg := match o_msg o with Some m => Some m | None => t_msg t end;
-     t_params := t_params t; t_ok := t_ok t |}.
+     t_params := match o_params o with Some ps => ps | None => t_params t end; t_ok := t_ok t |}.
 
 (** zconst.NotIssueCode *)
 Definition not_code (c : string) : string := "not_" ++ c.
